@@ -214,6 +214,28 @@ static std::string hx(const std::string& s) { return hx(s.data(), s.size()); }
 static std::string hx(upa::string_view s) { return hx(s.data(), s.length()); }
 
 // ---------------------------------------------------------------- state
+// ---------------------------------------------------------------- settrace: which url_setter members a setter invokes
+// A url_setter whose virtual members log the call and forward to the base class; the text of an append is what the
+// string a start_* call returned has gained by the time of the next call.  (Impl/TraceProto.v)
+struct trace_setter : upa::detail::url_setter {
+    explicit trace_setter(upa::url& u) : upa::detail::url_setter(u) {}
+    std::ostringstream log; std::string* cur = nullptr; std::size_t cur0 = 0;
+    void flush() { if (cur) { if (cur->size() >= cur0) log << " a:" << hx(cur->data() + cur0, cur->size() - cur0); else log << " a:SHRUNK"; cur = nullptr; } }
+    void track(std::string& s) { cur = &s; cur0 = s.size(); }
+    std::string& start_scheme() override { flush(); std::string& s = url_setter::start_scheme(); log << " ss"; track(s); return s; }
+    void save_scheme() override { flush(); url_setter::save_scheme(); log << " vs"; }
+    std::string& start_part(upa::url::PartType pt) override { flush(); std::string& s = url_setter::start_part(pt); log << " sp" << static_cast<int>(pt); track(s); return s; }
+    void save_part() override { flush(); url_setter::save_part(); log << " sv"; }
+    void clear_part(upa::url::PartType pt) override { flush(); log << " cl" << static_cast<int>(pt); url_setter::clear_part(pt); }
+    void empty_host() override { flush(); log << " eh"; url_setter::empty_host(); }
+    std::string& hostStart() override { flush(); log << " hs"; std::string& s = url_setter::hostStart(); cur = nullptr; track(s); return s; }
+    void hostDone(upa::HostType ht) override { flush(); log << " hd" << static_cast<int>(ht); cur = nullptr; url_setter::hostDone(ht); cur = nullptr; }
+    std::string& start_path_segment() override { flush(); std::string& s = url_setter::start_path_segment(); log << " ps"; track(s); return s; }
+    void save_path_segment() override { flush(); url_setter::save_path_segment(); log << " pv"; }
+    void commit_path() override { flush(); log << " cp"; url_setter::commit_path(); }
+    void shorten_path() override { flush(); log << " sh"; url_setter::shorten_path(); }
+};
+
 static const int NSLOT = 4;
 static thread_local std::unique_ptr<upa::url> g_url[NSLOT];
 static thread_local upa::url_search_params* g_sp[NSLOT];          // reference obtained by search_params() (raw, owned by the url)
@@ -926,6 +948,42 @@ static std::string run_cmd(const std::vector<std::string>& a) {
         const bool same = r0 == r1 && ref.is_valid() == u.is_valid() && (!ref.is_valid() || obs(ref) == obs(u));
         refresh_sp(s);
         return std::string("parse_selfinput same=") + (same ? "1" : "0"); }
+    if (c == "settrace") {
+        // settrace <setter> <url> <value>: the calls the setter makes on its url_setter (see trace_setter); the setter's own
+        // glue code (validity tests, the empty-value branch, the leading '#' / '?') is repeated here and its effect compared
+        // with the real setter on a second object (glue=)
+        need(3); Tok tu, tv; if (!parse_tok(a[2], tu) || !parse_tok(a[3], tv)) return "ERR bad-args";
+        upa::url u, u2; bool ok = false; WITH_STR(tu, S, ok = u.parse(S, nullptr) == upa::validation_errc::ok);
+        if (!ok) return "settrace invalid";
+        u2 = u;
+        const std::string& w = a[1];
+        if (tv.enc != 'b') return "ERR value-must-be-utf8";
+        const std::string val = tv.s8;
+        const char* first = val.data(); const char* last = first + val.size();
+        const unsigned flags0 = u.flags_;
+        std::string logged;
+        {
+            trace_setter ts(u);
+            using upa::detail::url_parser;
+            if (w == "hash") { if (first == last) { ts.clear_part(upa::url::FRAGMENT); ts.potentially_strip_trailing_spaces_from_an_opaque_path(); } else { if (*first == '#') ++first; url_parser::url_parse(ts, first, last, nullptr, url_parser::fragment_state); } }
+            else if (w == "search") { if (first == last) { ts.clear_part(upa::url::QUERY); u.clear_search_params(); ts.potentially_strip_trailing_spaces_from_an_opaque_path(); } else { if (*first == '?') ++first; url_parser::url_parse(ts, first, last, nullptr, url_parser::query_state); } }
+            else if (w == "port") { if (u.canHaveUsernamePasswordPort()) { if (first == last) ts.clear_part(upa::url::PORT); else url_parser::url_parse(ts, first, last, nullptr, url_parser::port_state); } }
+            else if (w == "username" || w == "password") {
+                if (u.canHaveUsernamePasswordPort()) { std::string& str = ts.start_part(w == "username" ? upa::url::USERNAME : upa::url::PASSWORD);
+                    upa::detail::append_utf8_percent_encoded(first, last, upa::userinfo_no_encode_set, str); ts.save_part(); } }
+            else return "ERR bad-setter";
+            ts.flush(); logged = ts.log.str();
+        }
+        const unsigned added = (u.flags_ & ~flags0) & (upa::url::PORT_FLAG | upa::url::QUERY_FLAG | upa::url::FRAGMENT_FLAG);
+        if (added) logged += " fl" + std::to_string(added);
+        // the real setter on the second object
+        if (w == "hash") u2.hash(val); else if (w == "search") u2.search(val); else if (w == "port") u2.port(val);
+        else if (w == "username") u2.username(val); else u2.password(val);
+        const bool glue = obs(u) == obs(u2) && repr_str(u) == repr_str(u2);
+        const bool single_clear = logged.compare(0, 3, " cl") == 0 && logged.find(' ', 1) == std::string::npos;
+        std::string out = "settrace" + logged + " | ";
+        if (single_clear && u.has_opaque_path()) out += "- rec=1"; else out += repr_str(u) + " rec=1";
+        return out + (glue ? "" : " glue=0"); }
     if (c == "raw") {   // raw <slot>: the unnormalised hidden representation (used by the generator of the `ser` stream, not compared)
         need(1); const int sl = slot_of(a[1]); if (sl < 0) return "ERR"; const upa::url& u = U(sl);
         std::ostringstream o; o << "raw " << hx(u.norm_url_) << " ";
